@@ -291,8 +291,10 @@ func (c *Collection) PullID(ctx context.Context, id string, opts ...ReadOption) 
 
 	send := make(chan *ValueChange)
 	// subscribe before returning, not at some later time in the go routine, so writes that follow this call aren't missed
+	ctx, stop := context.WithCancel(ctx)
 	changes := c.Pull(ctx, opts...)
 	go func() {
+		defer stop() // if we return because the item was deleted we must also stop listening for changes
 		defer close(send)
 		for change := range changes {
 			if change.Id != id {
